@@ -44,13 +44,15 @@ package auth
 //@   -- before-auth for a correct one) is handled - as the lock module does for a locked
 //@   -- account - LoginPost itself adds nothing the client could observe
 //@   ensures[C16] handled_adds_nothing: (emits Fire(_, _, _, _, _) -> (?hd, ?e) :: hd && e == nil && !(before Fire(_, _, _, _, _))) ==>
-//@       (result == nil && !emits Respond(_, _, _) && !emits Redirect(_) && !emits Sess.Put(_, _) && !emits Sess.Del(_) && !emits Cook.Put(_, _) && !emits Cook.Del(_))
+//@       (result == nil && !emits Respond(_, _, _) && !emits Redirect(_) && !emits Sess.Put(_, _) && !emits Sess.Del(_) && !emits Cook.Put(_, _) && !emits Cook.Del(_) &&
+//@        !emits HeaderSet(_, _, _) && !emits WriteHeader(_, _) && !emits Write(_, _) && !emits HTTPRedirect(_, _, _))
 //@   ensures[C16] first_event_sees_the_user: each Fire(_, _, ?cu, _, _) => !(before Fire(_, _, _, _, _)) ==>
 //@       (before Store.Load(_) -> (?u, ?le) :: le == nil && cu == u)
 //@   -- C16(c): an unknown account and a wrong password (not handled by any module) get the
 //@   -- same page, status and message, and no session or cookie change
 //@   ensures[C16] unknown_vs_wrong: each Respond(?code, ?page, ?data) =>
 //@       (code == 200 && page == PageLogin && maplen(data) == 1 && mapget(data, DataErr) == loc(a.Authboss, TxtInvalidCredentials) &&
-//@        !emits Sess.Put(_, _) && !emits Sess.Del(_) && !emits Cook.Put(_, _) && !emits Cook.Del(_) && !emits Redirect(_))
+//@        !emits Sess.Put(_, _) && !emits Sess.Del(_) && !emits Cook.Put(_, _) && !emits Cook.Del(_) && !emits Redirect(_) &&
+//@        !emits HeaderSet(_, _, _) && !emits WriteHeader(_, _) && !emits Write(_, _) && !emits HTTPRedirect(_, _, _))
 //@   ensures[C16] unknown_responds: (each Store.Load(_) -> (_, ?le) => le == ErrUserNotFound ==> after Respond(_, _, _)) &&
 //@       (each Fire("After", EventAuthFail, _, _, _) -> (?hd, ?e) => (!hd && e == nil) ==> after Respond(_, _, _))
